@@ -19,7 +19,8 @@ import common
 from common import sexp, parse_sexp
 
 MODEL_FILES = ['MaltModel/Conv/CtxWf.lean', 'MaltModel/Conv/Template.lean', 'MaltModel/Conv/TemplateHyp.lean',
-               'MaltModel/Conv/SrcClass.lean', 'MaltModel/Conv/Arity.lean', 'MaltModel/Proofs/C17Arity.lean', 'MaltModel/Conv/SexpTotal.lean', 'MaltModel/Proofs/C17Roundtrip.lean',
+               'MaltModel/Conv/SrcClass.lean', 'MaltModel/Conv/Arity.lean', 'MaltModel/Proofs/C17Arity.lean', 'MaltModel/Conv/ParserImage.lean',
+               'MaltModel/Proofs/C17PImage.lean', 'MaltModel/Proofs/C17Mix.lean', 'MaltModel/Conv/SexpTotal.lean', 'MaltModel/Proofs/C17Roundtrip.lean',
                'MaltModel/Proofs/C17Ctx.lean', 'MaltModel/Proofs/C17Fresh.lean', 'MaltModel/Proofs/C17Inst.lean',
                'MaltModel/Generated/Templates.lean', 'MaltModel/Drv/C17.lean']
 
@@ -29,12 +30,14 @@ MODEL_FILES = ['MaltModel/Conv/CtxWf.lean', 'MaltModel/Conv/Template.lean', 'Mal
 EXPECTED_UNRESOLVED = {'slices_process_single_assignment_0', 'slices_process_single_update_0'}
 
 FACTORY_SITE = 'transpiler_wrap_into_factory_1'
+ALLOWED_WHY = {'walrus-target-reached-by-adjuster', 'non-assignable-at-Store', 'non-assignable-at-Del',
+               'parameter-placeholder-bound-to-nodes-inserted-uncopied'}
 CLS_WALRUS = 'ctx_adjuster_reaches_walrus_target'
 CLS_NONASSIGNABLE = 'store_placeholder_bound_to_unadjustable_expression'
 CLS_STORE_LIST = 'lists_list_display_in_store_position'
 CLS_APPEND_EXPR = 'lists_append_call_in_expression_position'
 # failure kinds that an ill-formed expression context can explain (anything else in the same case is NOT attributed)
-CTX_EXPLAINED = ('conversion-fails-after-transform_ast', 'compile-of-tree-fails', 'unparsed-text-does-not-parse',
+CTX_EXPLAINED = ('conversion-fails-after-transform_ast', 'compile-of-tree-fails', 'unparsed-text-does-not-parse', 'parserImage-rejects-real-tree',
                  'ctxOk-rejects-real-tree', 'reparse-differs')
 
 
@@ -232,13 +235,24 @@ def evaluate(run, recs, sources, label):
                    'correspondence', not bad_echo, str(bad_echo[:2]))
     nrej = 0
     narity = 0
+    npim = 0
+    pim_reasons = collections.Counter()
+    pim_vs_reparse = collections.Counter()
     for r, a in zip(tree_recs, answers):
-        if not a.startswith('(True '):
+        v = parse_sexp(a) if a.startswith('(') else ['False', 'False', 'False', ['unreadable']]
+        if v[0] != 'True':
             nrej += 1
-            r['fails'].append(('ctxOk-rejects-real-tree', a))
-        if not a.endswith(' True)'):
+            r['fails'].append(('ctxOk-rejects-real-tree', a[:200]))
+        if v[1] != 'True':
             narity += 1
-            r['fails'].append(('arityOk-rejects-real-tree', a))
+            r['fails'].append(('arityOk-rejects-real-tree', a[:200]))
+        dyn = any(w.split(':')[0] in ('reparse-differs', 'unparsed-text-does-not-parse') and w.endswith('transform_ast') for w, _ in r['fails'])
+        if v[2] != 'True':
+            npim += 1
+            for why in v[3]:
+                pim_reasons[why.split(':')[0]] += 1
+            r['fails'].append(('parserImage-rejects-real-tree', ' '.join(v[3])[:300]))
+        pim_vs_reparse[('static-reject' if v[2] != 'True' else 'static-accept') + '/' + ('reparse-differs' if dyn else 'reparse-equal')] += 1
     # ---------------- captured template calls
     uniq = {}
     for r in recs:
@@ -248,6 +262,13 @@ def evaluate(run, recs, sources, label):
     lines = sorted(uniq)
     model = dict(zip(lines, run.drive(lines))) if (run.driver_ok and lines) else {}
     sites = parse_sexp(run.drive(['c17.sites'])[0]) if run.driver_ok else []
+    why = {}
+    if run.driver_ok and lines:
+        for l, a in zip(lines, run.drive(['c17.why ' + l.split(' ', 1)[1] for l in lines])):
+            try:
+                why[l] = parse_sexp(a)
+            except Exception:
+                why[l] = None
     dis, flags_by_line, site_of = [], {}, {}
     site_hits = collections.Counter()
     tmpl_mismatch = []
@@ -286,6 +307,8 @@ def evaluate(run, recs, sources, label):
     hyp_unexplained = []
     src_class = {}
     site_cache = {}
+    why_dist, shape_dist, why_unlisted = collections.Counter(), collections.Counter(), collections.Counter()
+    why_inconsistent, shared_bad = [], []
     for r in recs:
         stage[r['stage']] += 1
         if r.get('error'):
@@ -320,10 +343,29 @@ def evaluate(run, recs, sources, label):
                 args_sites[(nm, bool(fl.get('dups')))] += 1
                 if nm != FACTORY_SITE or fl.get('dups'):
                     case_hyp.append((nm, 'argsOk=%s dups=%s shared=%s' % (fl.get('argsOk'), fl.get('dups'), fl.get('shared'))))
+        case_unlisted = collections.Counter()
+        for t in r.get('calls') or []:
+            w = why.get(t[0]) if t is not None else None
+            if not w or not isinstance(w, list) or len(w) != 3:
+                continue
+            hyp = dict(zip(('tmplOk', 'bindingsWf', 'usesOk', 'argsOk', 'sharedOk'), [x == 'True' for x in w[0]]))
+            key = 'inside all hypotheses' if all(hyp.values()) else 'outside: ' + ','.join(k for k, v in hyp.items() if not v) + ' :: ' + ' + '.join(sorted(w[2]) or ['(ill-formed input)'])
+            why_dist[key] += 1
+            for sh in set(w[1]):
+                shape_dist[sh] += 1
+            if bool(w[2]) != (not (hyp['usesOk'] and hyp['argsOk'])) and hyp['bindingsWf'] and hyp['tmplOk']:
+                why_inconsistent.append(t[0][:300])
+            for reason in w[2]:
+                if reason not in ALLOWED_WHY:
+                    case_unlisted[reason] += 1
+            if not hyp['sharedOk']:
+                shared_bad.append((site_of.get(t[0]), r['key']))
         if case_hyp and not r['fails'] and r['stage'] == 'done':
             # a violated hypothesis without any observable defect: still reported (the theorem does not cover this call)
             hyp_unexplained.append({'case': r['key'], 'calls': case_hyp[:3]})
         if not r['fails']:
+            if r['stage'] == 'done':      # (a conversion that aborted inside a later pass is not judged here)
+                why_unlisted.update(case_unlisted)
             continue
         # class of the failing case: computed from its captured template calls by the Lean predicates
         reasons = set()
@@ -363,17 +405,29 @@ def evaluate(run, recs, sources, label):
                 'error': r.get('error'), 'reasons': sorted(reasons)}
         run.fail('%s: %s' % (r['fails'][0][0], str(r['fails'][0][1])[:200]), case, cls)
         if cls is None:
+            # (inside a case of a listed class, follow-up calls see the already ill-formed tree: e.g. a Store list display that
+            # lists.py moved into a Load position keeps its Store `Starred`)
+            why_unlisted.update(case_unlisted)
             for w in fkinds:
                 unattributed[w] += 1
     if run.driver_ok:
         run.oblige('hypotheses:every converter call satisfies tmplOk, bindingsWf, usesOk and (except the factory wrapper, whose '
                    'parameter nodes are inserted once and uncopied) argsOk — outside failing cases' + label, 'checker',
                    not hyp_unexplained, json.dumps(hyp_unexplained[:3]))
+        run.oblige('hypotheses:the shapes excluded by the template theorems are exactly the listed finding classes (walrus target reached, '
+                   'non-assignable node at a Store/Del placeholder) plus the uncopied parameter nodes of the factory wrapper' + label,
+                   'checker', not why_unlisted, str(dict(why_unlisted)))
+        run.oblige('hypotheses:c17.why is consistent with usesOk/argsOk' + label, 'checker', not why_inconsistent, str(why_inconsistent[:2]))
+        run.oblige('hypotheses:sharedOk (every node inserted without a copy is inserted once) at every converter call' + label, 'checker',
+                   not shared_bad, str(shared_bad[:3]))
         run.oblige('checker:ctxOk on the tree returned by transform_ast (all outside listed finding classes)' + label, 'checker',
                    not unattributed.get('ctxOk-rejects-real-tree'), 'rejected %d of %d trees' % (nrej, len(tree_recs)))
     if run.driver_ok:
         run.oblige('checker:arityOk (kw_defaults/kwonlyargs, defaults/args, ops/comparators) on the tree returned by transform_ast' + label,
                    'checker', not unattributed.get('arityOk-rejects-real-tree'), 'rejected %d of %d trees' % (narity, len(tree_recs)))
+    if run.driver_ok:
+        run.oblige('checker:parserImage (no tree outside the image of the parser) on the tree returned by transform_ast' + label,
+                   'checker', not unattributed.get('parserImage-rejects-real-tree'), 'rejected %d of %d trees: %s' % (npim, len(tree_recs), dict(pim_reasons)))
     for nm in ('node-object-occurs-twice', 'compile-of-tree-fails', 'unparse-raises', 'unparsed-text-does-not-parse', 'reparse-differs',
                'to_code-is-not-the-loaded-text', 'loaded-text-differs-from-transformed-tree', 'running-code-is-not-the-compiled-file-text',
                'module-file-differs-from-unparsed-source', 'conversion-fails-after-transform_ast', 'inconsistent-asts-detected',
@@ -381,6 +435,9 @@ def evaluate(run, recs, sources, label):
         run.oblige('runtime:%s never%s' % (nm, label), 'oracle', not unattributed.get(nm), 'cases: %d' % unattributed.get(nm, 0))
     return {'stage': dict(stage), 'stats': dict(stats), 'errors': {'%s|%s' % k: v for k, v in errkinds.most_common(12)},
             'node_kinds_in_output': dict(kinds.most_common(40)), 'ctxok_trees': len(tree_recs), 'ctxok_rejected': nrej,
+            'parser_image': {'rejected': npim, 'reasons': dict(pim_reasons), 'static_vs_reparse': dict(pim_vs_reparse)},
+            'hypothesis_coverage_of_captured_calls': dict(why_dist.most_common(30)),
+            'placeholder_shapes_of_captured_calls': dict(shape_dist.most_common(60)),
             'template_calls_distinct': len(lines), 'template_sites_hit': len([s for s in site_hits if not str(s).startswith('unknown')]),
             'template_sites_hit_list': sorted(str(s) for s in site_hits),
             'template_sites_not_reached_by_conversions': sorted(set(x[0] for x in sites) - set(str(s) for s in site_hits)), 'args_sharing_sites': {str(k): v for k, v in args_sites.items()}}
